@@ -375,8 +375,10 @@ func (store *HStore) Set(ki *KeyInfo, p *Payload) error {
 	bkt := store.buckets[ki.BucketID]
 	atomic.AddInt64(&bkt.NumSet, 1)
 	if bkt.State != BUCKET_STAT_READY {
-		cmem.DBRL.SetData.SubSizeAndCount(p.CArray.Cap)
-		p.CArray.Free()
+		if p.Ver >= 0 { // a delete carries no value buffer and was never counted
+			cmem.DBRL.SetData.SubSizeAndCount(p.CArray.Cap)
+			p.CArray.Free()
+		}
 		return nil
 	}
 
